@@ -187,6 +187,10 @@ class DummyTable(Table):
 
         # N.B., we want this to be stable, i.e., same data each time
         pyrandom.seed(seed)
+        # the field functions draw from the shared generator, so remember this
+        # iterator's position in the random sequence and restore it before
+        # each row, otherwise interleaved iterators would not be independent
+        state = pyrandom.getstate()
 
         # construct header row
         hdr = tuple(text_type(f) for f in fields.keys())
@@ -197,7 +201,10 @@ class DummyTable(Table):
             # artificial delay
             if self.wait:
                 time.sleep(self.wait)
-            yield tuple(fields[f]() for f in fields)
+            pyrandom.setstate(state)
+            row = tuple(fields[f]() for f in fields)
+            state = pyrandom.getstate()
+            yield row
 
     def reseed(self):
         self.seed = randomseed()
